@@ -144,6 +144,56 @@ let () =
             (hex_of_bytes qsig) (dec_of_z qcas) (str_opt_z qseq) (sdump ())
         | None -> Printf.sprintf "err %s | %s" (str_of_code c) (sdump ()))
     | _ -> "?");
+  (* ---- the same operations while chosen calls of the underlying Store fail: the first two arguments
+     say whether the s.Get and the s.Put (puts) / s.Del (gets) call of this operation returns an error ---- *)
+  reg "b44fput" (fun a _ -> match a with
+    | [fg; fp; bv; k; salt; sg; cas; seq] -> guarded (fun () ->
+        let (st', c) = rb_sfput edv !exp_ns !sst (fg = "1") (fp = "1") (mk_item bv k salt sg cas seq) in
+        sst := st';
+        Printf.sprintf "%s | %s" (str_of_code c) (sdump ()))
+    | _ -> "?");
+  reg "b44fget" (fun a _ -> match a with
+    | [fg; fd; t] ->
+      let (st', (c, r)) = rb_sfget edv !exp_ns !sst (fg = "1") (fd = "1") (bytes_of_hex t) in
+      sst := st';
+      let f = (match int_of_zz c, r with
+          | 0, Some i -> "found " ^ str_of_item (rb_sclock st') i
+          | 1, _ -> "notfound"
+          | 2, _ -> "error"
+          | _ -> "?") in
+      Printf.sprintf "%s | %s" f (sdump ())
+    | _ -> "?");
+  reg "b44fwput" (fun a _ -> match a with
+    | [fg; fp; bv; k; salt; sg; cas; seq] -> guarded (fun () ->
+        let (st', c) = rb_sfwput edv !exp_ns !sst (fg = "1") (fp = "1") (bytes_of_hex bv) (bytes_of_hex k)
+            (bytes_of_hex salt) (bytes_of_hex sg) (z_of_dec cas) (opt_z seq) in
+        sst := st';
+        if int_of_zz c = 0 then Printf.sprintf "reply | %s" (sdump ())
+        else Printf.sprintf "error %s | %s" (str_of_code c) (sdump ()))
+    | _ -> "?");
+  reg "b44fwget" (fun a _ -> match a with
+    | [fg; fd; t; sq] ->
+      let (st', (c, (rs, rv))) = rb_sfwget edv !exp_ns !sst (fg = "1") (fd = "1") (bytes_of_hex t) (opt_z sq) in
+      sst := st';
+      if int_of_zz c <> 0 then Printf.sprintf "error %s | %s" (str_of_code c) (sdump ())
+      else
+        let v = (match rv with
+            | None -> "- - -"
+            | Some ((bv, k), sg) -> Printf.sprintf "%s %s %s" (hex_of_bytes bv) (hex_of_bytes k) (hex_of_bytes sg)) in
+        Printf.sprintf "seq=%s %s | %s" (str_opt_z rs) v (sdump ())
+    | _ -> "?");
+  reg "b44flput" (fun a _ -> match a with
+    | [fg; fp; bv; k; salt; sg; cas; seq] -> guarded (fun () ->
+        let ko = if k = "-" then None else Some (bytes_of_hex k) in
+        let (st', (c, q)) = rb_sflput edv !exp_ns !sst (fg = "1") (fp = "1") (bytes_of_hex bv) ko (bytes_of_hex salt)
+            (bytes_of_hex sg) (z_of_dec cas) (z_of_dec seq) in
+        sst := st';
+        match q with
+        | Some (((((qbv, qk), qsalt), qsig), qcas), qseq) ->
+          Printf.sprintf "query %s %s %s %s %s %s | %s" (hex_of_bytes qbv) (hex_of_bytes qk) (hex_of_bytes qsalt)
+            (hex_of_bytes qsig) (dec_of_z qcas) (str_opt_z qseq) (sdump ())
+        | None -> Printf.sprintf "err %s | %s" (str_of_code c) (sdump ()))
+    | _ -> "?");
   (* ---- concurrent: threads over the store left by the sequential lines ---- *)
   reg "b44cthreads" (fun a _ -> match a with
     | _n :: specs ->
